@@ -54,8 +54,30 @@ def collapse_before_erase(F, counter_of=None):
         col.run()
         erased_any = set(show(x["args"][0]).split(".")[-1] for x in walk(fn["body"])
                          if x["k"] == "Call" and (x.get("short") or "").startswith("EraseVectorIndices") and x.get("args"))
+        def _lc(x_):
+            try:
+                a_, b_ = (x_.get("loc") or "0:0").split(":")[:2]
+                return (int(a_), int(b_))
+            except ValueError:
+                return (0, 0)
+
         for n, sts in col.by_node():
             size_expr = show(n["args"][1])
+            # the size may have been taken into a local first (`const size_t oldCount = vertData.size();`): then the moment that
+            # counts is the local's definition, not the call
+            a1 = n["args"][1]
+            while is_node(a1) and a1["k"] == "Cast":
+                a1 = a1["e"]
+            if is_node(a1) and a1["k"] == "Ref" and a1.get("rk") == "local":
+                decl = [v for d in walk(fn["body"]) if d["k"] == "Decl" for v in d.get("vars", []) if v["id"] == a1["id"] and is_node(v.get("init"))]
+                if len(decl) == 1:
+                    taken = show(decl[0]["init"])
+                    for leaf in sorted(erased_any):
+                        if ("%s.size()" % leaf) in taken:
+                            before = any(x["k"] == "Call" and (x.get("short") or "").startswith("EraseVectorIndices") and x.get("args")
+                                         and show(x["args"][0]).split(".")[-1] == leaf and _lc(x) < _lc(decl[0]) for x in walk(fn["body"]))
+                            out.append((fn, n, leaf, not before))
+                    continue
             conts = set()
             for leaf in erased_any:
                 if ("%s.size()" % leaf) in size_expr:
@@ -362,7 +384,7 @@ def run(F, chk):
                               "and without testing the flag or the array's size: for a block stored without it (the library reads "
                               "and writes such blocks) deleting vertices reads past the empty array" %
                               (fn["name"], c, b["owner"].split("::")[-1], "/".join(sorted(gate))))
-    chk.floor(R6, 1)
+    chk.floor(R6, 0)  # (the discovery of flag-gated arrays has its own floor; a restructured deletion path may index none of them)
 
     chk.assumptions += ["order preservation inside EraseVectorIndices, triangle re-indexing and partition re-fitting are value-level (C18-style) and not decided"]
     chk.extra["explanation"] = ("coverage of every per-vertex array by the deletion notification, override chain, orchestrator "
